@@ -24,7 +24,19 @@ def pools():
     return out
 
 
+REPLAY = None
+
+
+def replay(pid, path):
+    global REPLAY
+    v = json.load(open(path))["case"]
+    REPLAY = [{"tree": v["tree"], "share": bool(v.get("shared")), "pts": [v["point"]]}]
+    return run(pid, "quick", 0)
+
+
 def cases_for(pid, tier, seed):
+    if REPLAY is not None:
+        return [dict(c) for c in REPLAY]
     rnd = random.Random(2000 + seed)
     G = gen.GQ if tier == "quick" else gen.GT
     cases = []
